@@ -10,7 +10,7 @@ import itertools, math
 import numpy as np
 from . import common
 
-THEOREM_FILES = ['NumqiProps/C03.lean']
+THEOREM_FILES = ['NumqiProps/C03.lean', 'NumqiProps/C03Gates.lean']
 LEVEL = 'proof'
 RULE = ('one evaluation = one call of the real routine (apply_gate, apply_control_n_gate, dm.apply_gate, operator_expectation, '
         'inner_product_psi0_O_psi1, reduce_to_probability, Circuit.apply_state, Circuit.to_unitary) on a generated input, compared with '
@@ -524,25 +524,57 @@ def build_circuit(steps):
     return circ
 
 
+R_SQRT_HALF = float(1 / np.sqrt(2))
+SPECIAL_ANGLES = [0.0, math.pi / 2, math.pi, 2 * math.pi, -math.pi / 2, -math.pi, -2 * math.pi, 3 * math.pi, 4 * math.pi, math.pi / 4, -0.0]
+
+
+def cs(a):
+    return (math.cos(a), math.sin(a))
+
+
+def vocab_pairs(name, args=()):
+    """the (cos, sin) pairs the Lean vocabulary takes for a gate name: half angles for rx ry rz rzz and the theta of u3,
+    full angles for the two phases of u3, pi/4 for H (c = s = 1/sqrt 2) and T"""
+    base = name[1:] if name in ('crx', 'cry', 'crz', 'cu3') else name
+    if base == 'H':
+        return [(R_SQRT_HALF, R_SQRT_HALF)]
+    if base == 'T':
+        return [cs(math.pi / 4)]
+    if base in ('rx', 'ry', 'rz', 'rzz'):
+        return [cs(args[0] / 2)]
+    if base == 'u3':
+        return [cs(args[0] / 2), cs(args[1]), cs(args[2])]
+    return []
+
+
+def enc_pairs(pairs, enc):
+    if not pairs:
+        return '-'
+    one = lambda v: enc(np.array([v], dtype=np.complex128))
+    return ';'.join(f'{one(c)}~{one(s_)}' for c, s_ in pairs)
+
+
 def step_semantics(st):
-    """what the step means: list of ('u', array, targets) / ('c', array, controls, targets) / ('x', matrix) / ('s', delta)"""
+    """what the step means: list of ('u', array, targets, vinfo) / ('c', array, controls, targets, vinfo) / ('x', matrix) /
+    ('s', delta).  `vinfo = (name, qubits, pairs)` marks a method of the gate vocabulary: the model reads it through its own
+    table (`Vocab.toRaw` in NumqiModel/Gates.lean); the array carried here is the harness reference, used by the oracle only."""
     name = st[0]
     if name in REF:
-        return [('u', REF[name], st[1])]
+        return [('u', REF[name], st[1], (name, tuple(st[1]), vocab_pairs(name)))]
     if name in CTRL_FIXED:
-        return [('c', REF[CTRL_FIXED[name]], st[1], st[2])]
+        return [('c', REF[CTRL_FIXED[name]], st[1], st[2], (name, tuple(st[1]) + tuple(st[2]), []))]
     if name in ('single', 'double', 'triple', 'quadruple', 'append_u', 'myu'):
-        return [('u', st[1], st[2])]
+        return [('u', st[1], st[2], None)]
     if name in ('csingle', 'cdouble', 'append_c', 'myc'):
-        return [('c', st[1], st[2], st[3])]
+        return [('c', st[1], st[2], st[3], None)]
     if name == 'myf':
         return [('x', st[1])]
     if name in ('rx', 'ry', 'rz', 'rzz', 'u3'):
-        return [('u', PARAM[name][0](*st[2]), st[1])]
+        return [('u', PARAM[name][0](*st[2]), st[1], (name, tuple(st[1]), vocab_pairs(name, st[2])))]
     if name in ('rxP', 'ryP'):
-        return [('u', PARAM[name[:2]][0](*st[2]), st[1])]
+        return [('u', PARAM[name[:2]][0](*st[2]), st[1], (name[:2], tuple(st[1]), vocab_pairs(name[:2], st[2])))]
     if name in ('crx', 'cry', 'crz', 'cu3'):
-        return [('c', PARAM[name[1:]][0](*st[3]), st[1], st[2])]
+        return [('c', PARAM[name[1:]][0](*st[3]), st[1], st[2], (name, tuple(st[1]) + tuple(st[2]), vocab_pairs(name, st[3])))]
     if name == 'shift':
         return [('s', st[1])]
     if name == 'extend':
@@ -557,7 +589,10 @@ def program_is_integer(sem):
 def program_text(sem, enc):
     out = []
     for x in sem:
-        if x[0] == 'u':
+        if x[0] in 'uc' and x[-1] is not None:
+            name, qubits, pairs = x[-1]
+            out.append(f'v:{name}:{idx_str(qubits)}:{enc_pairs(pairs, enc)}')
+        elif x[0] == 'u':
             out.append(f'u:{idx_str(x[2])}:{enc(x[1])}')
         elif x[0] == 'c':
             out.append(f'c:{idx_str(x[2])}:{idx_str(x[3])}:{enc(x[1])}')
@@ -699,6 +734,71 @@ def malformed_cases(ctx, rng):
     return cases
 
 
+def vocabulary_cases(ctx, rng):
+    """the gate vocabulary itself: (a) the live constants / constructors of numqi.gate against the Lean gate arrays,
+    (b) what every gate method of Circuit appends to gate_index_list (kind, array after setP, index) against `Vocab.toRaw`"""
+    import numqi
+    G = numqi.gate
+    cases = []
+    for name in ['I', 'X', 'Y', 'Z', 'S', 'Swap', 'CNOT', 'CZ']:
+        cases.append(Case(f'C03 gatemat Z {name} -', (lambda name=name: np.asarray(getattr(G, name), dtype=np.complex128)), key='numqi.gate-constant',
+                          ntkey=('gatemat', name), replay=dict(fn='numqi.gate.' + name)))
+    for name in ['H', 'T']:
+        cases.append(Case(f'C03 gatemat Q {name} {enc_pairs(vocab_pairs(name), enc_q)}', (lambda name=name: np.asarray(getattr(G, name), dtype=np.complex128)),
+                          approx=True, key='numqi.gate-constant', ntkey=('gatemat', name), replay=dict(fn='numqi.gate.' + name)))
+    nrand = 6 if ctx.quick() else 60
+    for name, na in [('rx', 1), ('ry', 1), ('rz', 1), ('rzz', 1), ('u3', 3)]:
+        angles = [(a,) * na for a in SPECIAL_ANGLES]
+        if na == 3:
+            angles += [tuple(SPECIAL_ANGLES[int(i)] for i in rng.integers(0, len(SPECIAL_ANGLES), size=3)) for _ in range(nrand)]
+        angles += [tuple(float(x) for x in rng.uniform(-7, 7, size=na)) for _ in range(nrand)]
+        for a in angles:
+            cases.append(Case(f'C03 gatemat Q {name} {enc_pairs(vocab_pairs(name, a), enc_q)}', (lambda name=name, a=a: np.asarray(getattr(G, name)(*a), dtype=np.complex128)),
+                              approx=True, key='numqi.gate-constructor', ntkey=('gatemat', name, a), replay=dict(fn='numqi.gate.' + name, args=list(a))))
+    # Circuit methods
+    def appended(call):
+        circ = numqi.sim.Circuit()
+        call(circ)
+        gate, index = circ.gate_index_list[-1]
+        if gate.kind == 'control':
+            return ('c', sorted(int(x) for x in index[0]), [int(x) for x in index[1]], np.asarray(gate.array, dtype=np.complex128))
+        return ('u', None, [int(x) for x in index], np.asarray(gate.array, dtype=np.complex128))
+    n = 5
+    reps = 2 if ctx.quick() else 10
+    for rep in range(reps):
+        q = [int(x) for x in rng.permutation(n)]
+        a1 = float(rng.uniform(-7, 7)) if rep else SPECIAL_ANGLES[int(rng.integers(0, len(SPECIAL_ANGLES)))]
+        a3 = tuple(float(x) for x in rng.uniform(-7, 7, size=3))
+        table = vocab_table(q, a1, a3)
+        for name, qubits, args, call in table:
+            is_int = name in ('X', 'Y', 'Z', 'S', 'Swap', 'cnot', 'cx', 'cy', 'cz', 'toffoli')
+            enc = enc_z if is_int else enc_q
+            cases.append(Case(f'C03 vocab {"Z" if is_int else "Q"} {name} {idx_str(qubits)} {enc_pairs(vocab_pairs(name, args), enc)}',
+                              (lambda call=call: appended(call)), approx=not is_int, key='Circuit-method-appends', ntkey=('vocab', name, rep, len(cases)),
+                              replay=dict(fn='Circuit.' + name, qubits=list(qubits), args=list(args))))
+    return cases
+
+
+def vocab_table(q, a1, a3):
+    """(name, qubits, angles, call on a Circuit) for every gate method, the last three through the placeholder mechanism"""
+    if True:
+        return [
+            ('X', q[:1], (), lambda c: c.X(q[0])), ('Y', q[:1], (), lambda c: c.Y(q[0])), ('Z', q[:1], (), lambda c: c.Z(q[0])),
+            ('S', q[:1], (), lambda c: c.S(q[0])), ('H', q[:1], (), lambda c: c.H(q[0])), ('T', q[:1], (), lambda c: c.T(q[0])),
+            ('Swap', q[:2], (), lambda c: c.Swap(q[0], q[1])),
+            ('cnot', q[:2], (), lambda c: c.cnot(q[0], q[1])), ('cx', q[:2], (), lambda c: c.cx(q[0], q[1])),
+            ('cy', q[:2], (), lambda c: c.cy(q[0], q[1])), ('cz', q[:2], (), lambda c: c.cz(q[0], q[1])),
+            ('toffoli', q[:3], (), lambda c: c.toffoli((q[0], q[1]), q[2])),
+            ('rx', q[:1], (a1,), lambda c: c.rx(q[0], a1)), ('ry', q[:1], (a1,), lambda c: c.ry(q[0], a1)), ('rz', q[:1], (a1,), lambda c: c.rz(q[0], a1)),
+            ('u3', q[:1], a3, lambda c: c.u3(q[0], a3)), ('rzz', q[:2], (a1,), lambda c: c.rzz((q[0], q[1]), a1)),
+            ('crx', q[:2], (a1,), lambda c: c.crx(q[0], q[1], a1)), ('cry', q[:2], (a1,), lambda c: c.cry(q[0], q[1], a1)),
+            ('crz', q[:2], (a1,), lambda c: c.crz(q[0], q[1], a1)), ('cu3', q[:2], a3, lambda c: c.cu3(q[0], q[1], a3)),
+            # parameters supplied later through the placeholder mechanism
+            ('rx', q[:1], (a1,), lambda c: (c.rx(q[0], c.P['t']), c.setP(t=a1))), ('u3', q[:1], a3, lambda c: (c.u3(q[0], c.P['w']), c.setP(w=np.array(a3)))),
+            ('rz', q[:1], (a1,), lambda c: (c.rz(q[0], c.P[0]), c.setP([a1, 0.5]))),
+        ]
+
+
 def slice_cases(ctx, rng):
     """reduce_shape_index on general shapes, and the control slice of _control_n_index as a set of flat positions"""
     import numqi
@@ -734,7 +834,7 @@ def all_cases(ctx):
     if 'cases' not in _CACHE:
         rng = np.random.default_rng(ctx.np_seed)
         cases = gate_cases(ctx, rng) + embed_cases(ctx, rng) + dm_cases(ctx, rng) + inner_cases(ctx, rng) + prob_cases(ctx, rng) \
-            + circuit_cases(ctx, rng) + malformed_cases(ctx, rng) + slice_cases(ctx, rng)
+            + circuit_cases(ctx, rng) + malformed_cases(ctx, rng) + slice_cases(ctx, rng) + vocabulary_cases(ctx, rng)
         for c in cases:
             if c.soft:
                 try:
@@ -762,6 +862,16 @@ def agree(case, model_line):
         return v == model_line
     if model_line in ('error', 'bad-op') or model_line.startswith('error'):
         return False
+    if case.op.split(' ')[1] == 'vocab':
+        kind, ctrl, targets, arr = v
+        t = model_line.split(' ')
+        if t[0] != kind or len(t) != (4 if kind == 'c' else 3):
+            return False
+        if kind == 'c' and sorted(int(x) for x in t[1].split(';')) != ctrl:
+            return False
+        if [int(x) for x in t[-2].split(';')] != targets:
+            return False
+        v, model_line = arr, t[-1]
     if case.op.split(' ')[1] == 'unitary':
         w, rest = model_line.split(' ', 1)
         if int(w) != int(round(v[0].real)):
@@ -772,7 +882,7 @@ def agree(case, model_line):
         return e is not None and e == model_line
     ring = case.op.split(' ')[2]
     m = dec_z(model_line) if ring == 'Z' else dec_q(model_line)
-    return close(v, m)
+    return close(v, m, 1e-12 if case.op.split(' ')[1] in ('gatemat', 'vocab') else TOL)
 
 
 def correspondence(ctx):
@@ -790,7 +900,7 @@ def correspondence(ctx):
                          'not a property violation by itself - the public routines are compared on every index pattern')
         else:
             v = c.value
-            shown = v if isinstance(v, str) else (enc_z(v) or repr(np.asarray(v).tolist()))
+            shown = v if isinstance(v, str) else (repr(v) if isinstance(v, tuple) else (enc_z(v) or repr(np.asarray(v).tolist())))
             ctx.disagree(c.op if len(c.op) < 4000 else c.op[:4000] + '…', m[:2000], shown[:2000])
     for c in cases[:3]:
         ctx.sample({'op': c.op[:200], 'out': (c.value if isinstance(c.value, str) else enc_z(c.value) or '')[:120]})
